@@ -72,14 +72,14 @@ fn check_event(e: &Ev, op: usize, name: S, nl: usize, ls: &[(&'static str, &'sta
     }
 }
 
-fn prefix() {
+fn prefix(op_lo: usize) {
     reset();
     let pfx = crate::s02();
     let name = crate::s02();
-    let nl = nd::below(3);
+    let nl = if op_lo == 0 { 0 } else { nd::below(3) };
     let ls = [(crate::s1(), crate::s1()), (crate::s1(), crate::s1())];
-    let unit = any_unit();
-    let op = nd::below(6);
+    let unit = if op_lo == 0 { any_unit() } else { None };
+    let op = op_lo + nd::below(3);
     let layered = PrefixLayer::new(pfx).layer(Rec::new(1));
     drive(&layered, name, nl, &ls, unit, op);
     let expect_events = if op < 3 { 1 } else { 2 };
@@ -94,13 +94,13 @@ fn prefix() {
     std::mem::forget(layered);
 }
 
-fn fanout(width: usize) {
+fn fanout(width: usize, op_lo: usize) {
     reset();
-    let name = crate::s02();
-    let nl = nd::below(3);
-    let ls = [(crate::s1(), crate::s1()), (crate::s1(), crate::s1())];
-    let unit = any_unit();
-    let op = nd::below(6);
+    let name = crate::s1();
+    let nl = if op_lo == 0 { 0 } else { nd::below(2) };
+    let ls = [(crate::s1(), crate::s1()), ("", "")];
+    let unit = if op_lo == 0 { any_unit() } else { None };
+    let op = op_lo + nd::below(3);
     let mut b = FanoutBuilder::default();
     let mut i = 0;
     while i < width {
@@ -149,7 +149,7 @@ fn fanout_updates() {
     std::mem::forget(f);
 }
 
-/// Stack: layers compose in push order (first pushed = outermost)
+/// Stack: `Stack::new(r).push(l1).push(l2)` is `l2.layer(l1.layer(r))` — the last pushed layer is outermost
 fn stack() {
     reset();
     let p1 = crate::s1();
@@ -158,34 +158,46 @@ fn stack() {
     let r = Stack::new(Rec::new(1)).push(PrefixLayer::new(p1)).push(PrefixLayer::new(p2));
     r.describe_counter(KeyName::from_const_str(name), None, SharedString::const_str("d"));
     assert!(nlog() == 1, "forwarded_exactly_once");
-    // by hand: the layers applied in push order around the recorder
-    reset();
-    let by_hand = PrefixLayer::new(p1).layer(PrefixLayer::new(p2).layer(Rec::new(1)));
     let got_stack = ev(0).name;
+    reset();
+    let by_hand = PrefixLayer::new(p2).layer(PrefixLayer::new(p1).layer(Rec::new(1)));
     by_hand.describe_counter(KeyName::from_const_str(name), None, SharedString::const_str("d"));
     let got_hand = ev(0).name;
-    let mut a = concat3(p2, ".", p1);
+    assert!(got_stack == got_hand, "stack_is_composition_in_push_order");
+    let mut expect = concat3(p1, ".", p2);
     let t = concat3(".", name, "");
     let mut i = 0;
-    while i < t.n { a.b[a.n] = t.b[i]; a.n += 1; i += 1; }
-    assert!(got_stack == a || got_stack == { let mut b = concat3(p1, ".", p2); let mut i = 0; while i < t.n { b.b[b.n] = t.b[i]; b.n += 1; i += 1; } b }, "stack_is_some_composition");
-    assert!(got_stack == got_hand || p1 == p2, "stack_composes_in_push_order");
-    std::mem::forget((r, by_hand));
+    while i < t.n { expect.b[expect.n] = t.b[i]; expect.n += 1; i += 1; }
+    assert!(got_stack == expect, "stack_outer_layer_applies_first");
+    // a fanout below a prefix: both inner recorders get the prefixed name
+    reset();
+    let f = FanoutBuilder::default().add_recorder(Rec::new(1)).add_recorder(Rec::new(2)).build();
+    let pf = Stack::new(f).push(PrefixLayer::new(p1));
+    pf.describe_gauge(KeyName::from_const_str(name), None, SharedString::const_str("d"));
+    assert!(nlog() == 2 && ev(0).rec == 1 && ev(1).rec == 2, "prefix_over_fanout_reaches_both");
+    assert!(ev(0).name == concat3(p1, ".", name) && ev(1).name == concat3(p1, ".", name), "prefix_over_fanout_names");
+    std::mem::forget((r, by_hand, pf));
 }
 
 harnesses! {
-    #[cfg_attr(kani, kani::unwind(10))]
-    fn c13_prefix() { prefix() }
-    #[cfg_attr(kani, kani::unwind(10))]
-    fn c13_fanout_0() { fanout(0) }
-    #[cfg_attr(kani, kani::unwind(10))]
-    fn c13_fanout_1() { fanout(1) }
-    #[cfg_attr(kani, kani::unwind(10))]
-    fn c13_fanout_2() { fanout(2) }
-    #[cfg_attr(kani, kani::unwind(10))]
-    fn c13_fanout_3() { fanout(3) }
-    #[cfg_attr(kani, kani::unwind(10))]
+    #[cfg_attr(kani, kani::unwind(8))]
+    fn c13_prefix_describe() { prefix(0) }
+    #[cfg_attr(kani, kani::unwind(8))]
+    fn c13_prefix_register() { prefix(3) }
+    #[cfg_attr(kani, kani::unwind(8))]
+    fn c13_fanout_0() { fanout(0, nd::below(2) * 3) }
+    #[cfg_attr(kani, kani::unwind(8))]
+    fn c13_fanout_1_describe() { fanout(1, 0) }
+    #[cfg_attr(kani, kani::unwind(8))]
+    fn c13_fanout_1_register() { fanout(1, 3) }
+    #[cfg_attr(kani, kani::unwind(8))]
+    fn c13_fanout_2_describe() { fanout(2, 0) }
+    #[cfg_attr(kani, kani::unwind(8))]
+    fn c13_fanout_2_register() { fanout(2, 3) }
+    #[cfg_attr(kani, kani::unwind(8))]
+    fn c13_fanout_3_describe() { fanout(3, 0) }
+    #[cfg_attr(kani, kani::unwind(8))]
     fn c13_fanout_updates() { fanout_updates() }
-    #[cfg_attr(kani, kani::unwind(10))]
+    #[cfg_attr(kani, kani::unwind(8))]
     fn c13_stack() { stack() }
 }
